@@ -110,6 +110,14 @@ def e_case(c):
     check(np.allclose(w, ref, rtol=1e-12, atol=1e-6 * fs / max(N, 1) * 1e-6), "w!=2pi*fftfreq*fs", f"fs={fs}: {w[:3]} vs {ref[:3]}")
     ws = lib(x.w, True)
     check(np.allclose(ws, fftshift(ref), rtol=1e-12, atol=1e-12 * fs), "w(shift)!=fftshift", "")
+    # the caller owns a returned axis (w = x.w(); w *= 1e-12 to work in rad/ps is ordinary use): later calls still give the axis of the statement
+    for own in (w, ws):
+        if isinstance(own, np.ndarray) and own.flags.writeable:
+            own *= 1e-12
+            own += 1.0
+    w_again, ws_again = lib(x.w), lib(x.w, True)
+    check(np.allclose(w_again, ref, rtol=1e-12, atol=1e-6 * fs / max(N, 1) * 1e-6) and np.allclose(ws_again, fftshift(ref), rtol=1e-12, atol=1e-12 * fs),
+          "w-follows-edits-of-an-earlier-result", f"fs={fs} N={N}: {np.asarray(w_again)[:3]} vs {ref[:3]}")
     check(lib(x.fs) == fs and lib(x.sps) == sps and abs(lib(x.dt) - 1 / fs) <= 1e-12 / fs, "fs/sps/dt-accessors", f"{x.fs()} {x.sps()} {x.dt()}")
     # power
     tot = m.total
